@@ -51,11 +51,11 @@ theorem keyQ_of_select {fmt : J5V.Compile.KeyFmt} {ek : J5V.Compile.EntKey} {w :
     (hpi : propInfo j5Env sKeyFormat w = some (j, some gKeyFormat, .container sw))
     (hspec : ∀ c, specOf j5Env ⟨c, .msg sw⟩ = .ok specw)
     (ht : (List.replicate 4 false)[j]? = some false) (hv : (List.replicate 4 Node.absent)[j]? = some .absent) :
-    FieldRunQ (.key fmt ek [] false) [b!"format"] (keyNode j (freshMsg sw)) := by
+    FieldRunQ (.key fmt ek [] false) [b!"format"] (fun _ _ => True) (keyNode j (freshMsg sw)) := by
   intro outer root d hmiss
   have hmiss' : ∀ o ∈ outer, Misses o b!"format" := hmiss _ (by simp)
   refine ⟨(typeScope outer (keyCF d) root).mergeScope (Scope.newChild (cfOf sw specw (d ++ [1, j]))), specw,
-    [cfOf sw specw (d ++ [1, j])], ?_, ?_⟩
+    [cfOf sw specw (d ++ [1, j])], ?_, trivial, ?_⟩
   · simp [typeScope, Scope.mergeScope, Scope.newChild, tcfOf, kindSchema, kindSpec]
   · show Exact (walkQualifiers j5Env (keyFmtQuals fmt) _ _) _ _ _ _
     rw [hq]
@@ -65,6 +65,8 @@ def keyFacts (fmt : J5V.Compile.KeyFmt) (ek : J5V.Compile.EntKey) (hfmt : keyFmt
     (hek : ekTrivial ek = true) : FieldFacts (.key fmt ek [] false) where
   qualNames := [b!"format"]
   bodyNames := [b!"format"]
+  blockNames := []
+  tailP := fun _ _ => True
   qualVal := keyQualVal fmt
   typeVal := typeMsg (.key fmt ek [] false)
   pi := kind_pi2 rfl
@@ -72,6 +74,12 @@ def keyFacts (fmt : J5V.Compile.KeyFmt) (ek : J5V.Compile.EntKey) (hfmt : keyFmt
   specName := kindSpec_name
   specTypeSelect := kindSpec_typeSelect
   msg := fieldMsg_eq (key_ok1 hfmt hek)
+  namesSub := by
+    intro n hn
+    simp only [List.mem_singleton, or_self] at hn
+    subst hn; decide
+  qualSub := by intro _ n hn; exact .inl (List.mem_singleton.mp hn)
+  blockSub := by intro kw hkw; cases hkw
   found := by
     intro d n hn
     simp only [List.mem_singleton] at hn
@@ -84,7 +92,7 @@ def keyFacts (fmt : J5V.Compile.KeyFmt) (ek : J5V.Compile.EntKey) (hfmt : keyFmt
     cases fmt with
     | none =>
       intro outer root d _
-      exact ⟨typeScope outer (keyCF d) root, specKeyField, [], rfl, walkQualifiers_nil _ _ _ _⟩
+      exact ⟨typeScope outer (keyCF d) root, specKeyField, [], rfl, trivial, walkQualifiers_nil _ _ _ _⟩
     | informal =>
       exact keyQ_of_select (w := b!"informal") rfl (by decide) pi_KeyFormat_informal specOf_KeyFormatInformal rfl rfl
     | custom p =>
@@ -94,7 +102,7 @@ def keyFacts (fmt : J5V.Compile.KeyFmt) (ek : J5V.Compile.EntKey) (hfmt : keyFmt
     | id62 =>
       exact keyQ_of_select (w := b!"id62") rfl (by decide) pi_KeyFormat_id62 specOf_KeyFormatID62 rfl rfl
   runB := by
-    intro sc pfx flag a b C hr
+    intro sc pfx flag a b C hr _
     rw [key_fieldBody fmt false pfx flag hek]
     cases fmt with
     | none => exact doBody_nil _ _ _
@@ -107,23 +115,22 @@ def keyFacts (fmt : J5V.Compile.KeyFmt) (ek : J5V.Compile.EntKey) (hfmt : keyFmt
           some (cfOf sKeyField specKeyField (a ++ b), [b!"format"]) :=
         findBlock_prop' (show aliasLookup b!"format" specKeyField.aliases = none by decide +kernel)
           (show sKeyField.hasProperty b!"format" = true by decide +kernel)
-      have hr1 := hr.extend_cached (n := b!"format") (by simp) (by decide) hfbF pi_KeyField_format specOf_KeyFormat
-        (t := [false, true, false, false, false]) (vs := [.absent, .absent, .absent, .absent, .absent])
-        rfl (by decide) [b!"custom"]
+      have hr1 := hr.child_touched [false, true, false, false, false] [.absent, .absent, .absent, .absent, .absent]
+        (n := b!"format") (List.mem_singleton.mpr rfl) (by decide) hfbF pi_KeyField_format specOf_KeyFormat
+        rfl (by decide)
       have hfbC : findBlock b!"custom" [cfOf sKeyFormat specKeyFormat (a ++ (b ++ [1]))] =
           some (cfOf sKeyFormat specKeyFormat (a ++ (b ++ [1])), [b!"custom"]) :=
         findBlock_prop' (show aliasLookup b!"custom" specKeyFormat.aliases = none from rfl)
           (propInfo_hasProperty pi_KeyFormat_custom)
-      have hr2 := hr1.extend_cached (n := b!"custom") (by simp) (by decide) hfbC pi_KeyFormat_custom
-        specOf_KeyFormatCustom (t := (List.replicate 4 false).set 1 true) (vs := List.replicate 4 .absent)
-        rfl (by decide) [b!"pattern"]
+      have hr2 := hr1.child_touched ((List.replicate 4 false).set 1 true) (List.replicate 4 .absent)
+        (n := b!"custom") trivial (by decide) hfbC pi_KeyFormat_custom specOf_KeyFormatCustom rfl (by decide)
       have hfbP : findBlock b!"pattern" [cfOf sKeyFormatCustom specKeyFormatCustom (a ++ (b ++ [1] ++ [1]))] =
           some (cfOf sKeyFormatCustom specKeyFormatCustom (a ++ (b ++ [1] ++ [1])), [b!"pattern"]) :=
         findBlock_prop' (show aliasLookup b!"pattern" specKeyFormatCustom.aliases = none from rfl)
           (propInfo_hasProperty pi_KeyFormatCustom_pattern)
       have hfmt' : okString p = true := hfmt
-      have h3 := hr2.attr (n := b!"pattern") (by simp) (by decide) hfbP pi_KeyFormatCustom_pattern
-        (t := [false]) (vs := [.absent]) (cur := .absent) rfl rfl (.inl rfl)
+      have h3 := hr2.attr (some (.msg [false] [.absent])) rfl (n := b!"pattern") trivial (by decide) hfbP
+        pi_KeyFormatCustom_pattern (cur := .absent) rfl rfl (.inl rfl)
         (val := strValue p) (v := .str p) (asArray_strValue _)
         (by simp only [scalarFromAST, asString_strValue (isAscii_of_okString hfmt')]; rfl)
       have hkey : pfx ++ [b!"format"] ++ [b!"custom"] ++ [b!"pattern"] = pfx ++ [b!"format", b!"custom", b!"pattern"] := by
@@ -132,29 +139,29 @@ def keyFacts (fmt : J5V.Compile.KeyFmt) (ek : J5V.Compile.EntKey) (hfmt : keyFmt
       exact doBody_cons h3 (doBody_nil _ _ _)
 
 /-- every scalar field (with rules) has its facts -/
-theorem scalarFacts {f : CField} (h : fieldOk2 f = true) : Nonempty (FieldFacts f) := by
+theorem scalarFacts' {f : CField} (h : fieldOk2 f = true) : ∃ ff : FieldFacts f, ff.blockNames = [] := by
   cases f with
   | string rules l =>
     simp only [fieldOk2, Bool.and_eq_true, Bool.not_eq_true'] at h
-    exact ⟨stringFacts rules l h.2⟩
+    exact ⟨stringFacts rules l h.2, rfl⟩
   | bool rules l =>
     simp only [fieldOk2, Bool.and_eq_true, Bool.not_eq_true'] at h
-    exact ⟨boolFacts rules l h.2⟩
-  | bytes rules => exact ⟨bytesFacts rules h⟩
+    exact ⟨boolFacts rules l h.2, rfl⟩
+  | bytes rules => exact ⟨bytesFacts rules h, rfl⟩
   | date rules l =>
     simp only [fieldOk2, Bool.and_eq_true, Bool.not_eq_true'] at h
-    exact ⟨dateFacts rules l h.2⟩
+    exact ⟨dateFacts rules l h.2, rfl⟩
   | decimal rules l =>
     simp only [fieldOk2, Bool.and_eq_true, Bool.not_eq_true'] at h
-    exact ⟨decimalFacts rules l h.2⟩
-  | timestamp rules => exact ⟨timestampFacts rules h⟩
-  | any => exact ⟨anyFacts⟩
+    exact ⟨decimalFacts rules l h.2, rfl⟩
+  | timestamp rules => exact ⟨timestampFacts rules h, rfl⟩
+  | any => exact ⟨anyFacts, rfl⟩
   | integer fmt rules l =>
     simp only [fieldOk2, Bool.and_eq_true, Bool.not_eq_true'] at h
-    exact ⟨integerFacts fmt rules l h.2⟩
+    exact ⟨integerFacts fmt rules l h.2, rfl⟩
   | float fmt rules l =>
     simp only [fieldOk2, Bool.and_eq_true, Bool.not_eq_true'] at h
-    exact ⟨floatFacts fmt rules l h.2⟩
+    exact ⟨floatFacts fmt rules l h.2, rfl⟩
   | key fmt ek rules l =>
     simp only [fieldOk2, Bool.and_eq_true, Bool.not_eq_true'] at h
     obtain ⟨⟨⟨hl, hr⟩, hfmt⟩, hek⟩ := h
@@ -162,7 +169,10 @@ theorem scalarFacts {f : CField} (h : fieldOk2 f = true) : Nonempty (FieldFacts 
     have hnil := rules_nil_of_no_props (sR := sKeyRules) (by decide +kernel) hu.1
     subst hnil
     subst hl
-    exact ⟨keyFacts fmt ek hfmt hek⟩
+    exact ⟨keyFacts fmt ek hfmt hek, rfl⟩
   | _ => cases h
+
+theorem scalarFacts {f : CField} (h : fieldOk2 f = true) : Nonempty (FieldFacts f) :=
+  let ⟨ff, _⟩ := scalarFacts' h; ⟨ff⟩
 
 end J5V.Walker
